@@ -131,8 +131,8 @@ pub open spec fn is_monitor(c: Config, a: Addr) -> bool {
 } // verus!
 verus! {
 // ------------------------------------------------------------------ exchange-rate formulas (C04)
-pub open spec fn mint_of(tn: nat, tl: nat, x: nat) -> nat { if tn == 0 { x } else { (tl * x) / tn } }
-pub open spec fn unbond_of(tn: nat, tl: nat, b: nat) -> nat { if b == 0 { 0 } else { (tn * b) / tl } }
+pub open spec fn mint_of(tn: nat, tl: nat, x: nat) -> nat { if tn == 0 { x } else { muldiv(tl, x, tn) } }
+pub open spec fn unbond_of(tn: nat, tl: nat, b: nat) -> nat { if b == 0 { 0 } else { muldiv(tn, b, tl) } }
 } // verus!
 verus! {
 // ------------------------------------------------------------------ ibc-hooks sender (C09)
